@@ -106,6 +106,11 @@ def gen_cases(rng, tier):
         L = rng.choice([0, 1, 8, 9, 16, 24, 33])
         yield {'op': 'program', 'cls': cls, 'bits': rand_bits(rng, L), 'lsb0': rng.random() < 0.25, 'pos': rng.choice([0, L // 2, L]),
                'adtype': rng.choice(['uint8', 'int4', 'float16', 'hex4', 'bytes1']), 'steps': [gen_call(rng, cls, L) for _ in range(rng.randrange(4, 13))]}
+    for _ in range(N // 10):
+        bad = rng.choice(['uint0', 'uint:0', 'int0', 'hex0', 'bits0', 'bytes0', 'bin:0', 'se', 'ue', 'bogus8', 'float:17', 'uint8', 'hex:4', 'float16', '', 'bool', 'pad:3'])
+        yield {'op': 'program', 'cls': 'Array', 'bits': '', 'lsb0': False, 'pos': 0, 'adtype': rng.choice(['uint8', 'int4', 'float16', 'hex4', 'bytes1']),
+               'steps': [{'k': 'setprop', 'name': 'dtype', 'v': {'str': bad}}, {'k': 'getprop', 'name': 'dtype'}, {'k': 'call', 'name': 'tolist', 'args': [], 'kwargs': {}},
+                         {'k': 'call', 'name': 'append', 'args': [1], 'kwargs': {}}, {'k': 'getprop', 'name': 'itemsize'}]}
     for _ in range(N // 4):
         yield {'op': 'constructor', 'cls': rng.choice(CLASSES), 'args': [gen_arg(rng, 'auto', 8, 'a')] if rng.random() < 0.6 else [],
                'kwargs': {k: gen_arg(rng, k, 8, 'a') for k in rng.sample(['length', 'offset', 'pos', 'uint', 'int', 'hex', 'bin', 'bytes', 'float', 'ue', 'bool', 'bits', 'filename', 'bitarray', 'auto'], rng.randrange(0, 3))}}
@@ -160,7 +165,14 @@ def mat(a, self_obj):
 
 def snapshot(o):
     import bitstring
-    if isinstance(o, bitstring.Array): return ['Array', o.data.bin, len(o.data), None]
+    if isinstance(o, bitstring.Array):
+        # a valid Array answers len / tolist / repr / itemsize (a refused dtype assignment must not leave it half changed)
+        bad = None
+        for name, fn in (('len', lambda: len(o)), ('tolist', lambda: o.tolist()), ('repr', lambda: repr(o)), ('itemsize', lambda: o.itemsize), ('trailing_bits', lambda: o.trailing_bits)):
+            try: fn()
+            except Exception as e:
+                bad = f'{name}() raises {type(e).__name__}: {str(e)[:60]}'; break
+        return ['Array', o.data.bin, len(o.data), None, bad]
     return [type(o).__name__, o.bin, len(o), getattr(o, 'pos', None)]
 
 def drain(v):
@@ -254,6 +266,7 @@ def oracle(c, obs):
         where = f"{c['cls']}({before[1][:40]!r}, pos={before[3]}, lsb0={c['lsb0']}).{st['name']}" + (f"({st.get('args')}, {st.get('kwargs')})" if st['k'] == 'call' else f" {st['k']} {st.get('v')}")
         if bad_exc(r, st): return f"{where} raised {r[1]}"
         if after[2] != len(after[1]): return f"{where}: len(s)={after[2]} but len(s.bin)={len(after[1])}"
+        if len(after) > 4 and after[4]: return f"{where} left the Array unusable: {after[4]}"
         if after[3] is not None and not 0 <= after[3] <= after[2]: return f"{where}: pos={after[3]} outside [0, {after[2]}]"
         if c['cls'] in ('Bits', 'ConstBitStream') and after[1] != before[1]: return f"{where} changed an immutable object: {before[1][:40]!r} -> {after[1][:40]!r}"
         if not frozen_ok: return f"{where} changed an unrelated immutable object"
